@@ -158,7 +158,7 @@ def _pq_as_bytes(eng, st, args, dty, callee, m):
     return args[0] if isinstance(args[0], VRef) else eng.alloc(st, v, "T")
 
 
-@first(r"^(std::collections::)?HashMap::<.*>::(keys|values|values_mut|iter|iter_mut)$", "HashMap iteration: over the enumerated keys of a finite map (opaque for array-only maps: any use is an error)")
+@first(r"^(std::collections::)?HashMap::<.*>::(keys|values|values_mut|iter|iter_mut)$|^<&(mut )?(std::collections::)?HashMap<.*> as IntoIterator>::into_(iter)$", "HashMap iteration: over the enumerated keys of a finite map (opaque for array-only maps: any use is an error)")
 def _map_keys(eng, st, args, dty, callee, m):
     from summaries_coll import _load_map
     from values import VIter
@@ -169,7 +169,7 @@ def _map_keys(eng, st, args, dty, callee, m):
         return VOpaque("HashMap iteration")
     if mp.enum is None or mp.present is None:
         return VOpaque("HashMap iteration (map is not enumerable)")
-    mode = m.group(2)
+    mode = m.group(2) or "iter"
     items = []
     for (kb, kval) in mp.enum:
         cond = simp(z3.Select(mp.present, kb))
